@@ -382,7 +382,37 @@ def gen_kats():
 
 def gen_parity():
     """crypt/parity.c on its whole domain (every unsigned char), plus out-of-domain requests"""
-    return [["parity %d" % b for b in range(256)], ["parity 256", "parity -1", "parity 7"]]
+    cases = [["parity %d" % b for b in range(256)], ["parity 256", "parity -1", "parity 7"]]
+    # the parity bit of a key byte is not key material (MgProof.C12.Parity.des_ignores_key_parity):
+    # the same message under a key and under that key with parity bits changed, DES and 3DES
+    import random
+    rng = random.Random(12)
+    for i in range(12):
+        alg = "des" if i % 2 == 0 else "tdes"
+        n = 8 if alg == "des" else 24
+        key = bytes(rng.randrange(256) for _ in range(n))
+        flip = bytes(rng.choice([0, 1, 1]) for _ in range(n)) if i else bytes([1]) * n
+        key2 = bytes(a ^ f for a, f in zip(key, flip))
+        msg = bytes(rng.randrange(256) for _ in range(8 * (1 + i % 3)))
+        mode = i % 5
+        cases.append(roundtrip_case(alg, mode, 1, key, bytes(8), msg, [(0, len(msg))]) +
+                     roundtrip_case(alg, mode, 1, key2, bytes(8), msg, [(0, len(msg))]))
+    return cases
+
+
+def judge_key_parity(ops, out):
+    """two round trips whose keys differ in parity bits only must print the same lines"""
+    sk = [i for i, o in enumerate(ops) if o.startswith("setkey ")]
+    if len(sk) != 4 or len(out) != len(ops):
+        return None
+    k1, k2 = bytes.fromhex(ops[sk[0]].split()[4]), bytes.fromhex(ops[sk[2]].split()[4])
+    if len(k1) != len(k2) or any((a ^ b) & 0xfe for a, b in zip(k1, k2)):
+        return None
+    a, b = out[sk[0]:sk[2]], out[sk[2]:]
+    if a != b:
+        j = next(i for i in range(min(len(a), len(b))) if a[i] != b[i])
+        return "keys differing in parity bits only give different results: %r / %r" % (a[j][:80], b[j][:80])
+    return None
 
 
 def judge_parity(ops, out):
@@ -404,6 +434,9 @@ def make_judge(kat_expect):
     def judge(ops, out):
         if ops and ops[0].startswith("parity "):
             return judge_parity(ops, out)
+        r = judge_key_parity(ops, out)
+        if r:
+            return r
         exp = kat_expect.get(tuple(ops))
         if exp:
             for j, want in exp.items():
